@@ -316,7 +316,7 @@ class Program:
             op = g.gen_addremove(sess, kind, intent=intent)
         elif kind == "transfer":
             intent = rng.choice(["reject.underflow", "reject.overflow"]) if fault else "ok"
-            op = g.gen_transfer(sess, intent)
+            op = (g.gen_chain_transfer(sess, intent) if fault and rng.random() < 0.1 else None) or g.gen_transfer(sess, intent)
         elif kind == "distribute":
             intent = rng.choice(["reject.underflow", "reject.overflow"]) if fault else "ok"
             op = g.gen_distribute(sess, intent) or g.gen_transfer(sess, intent)
